@@ -1147,14 +1147,16 @@ func (self *Node) deleteChild(path Path) Node {
 		if err != nil {
 			return errNode(meta.ErrRead, "", err)
 		}
+		if !pathFitsType(path.Type(), thrift.MAP) {
+			return errNode(meta.ErrDismatchType, "", nil)
+		}
 		id := path.ToRaw(kt)
 		if id == nil {
 			return errNode(meta.ErrInvalidParam, "", nil)
 		}
-		if err := p.ModifyI32(p.Read-4, int32(size-1)); err != nil {
-			return errNode(meta.ErrWrite, "", err)
-		}
+		sizePos := p.Read - 4
 		tt = et
+		found := false
 		for i := 0; i < size; i++ {
 			s = p.Read
 			if err := p.Skip(kt, UseNativeSkipForGet); err != nil {
@@ -1166,8 +1168,15 @@ func (self *Node) deleteChild(path Path) Node {
 			}
 			e = p.Read
 			if bytes.Equal(key, id) {
+				found = true
 				break
 			}
+		}
+		if !found {
+			return errNotFound
+		}
+		if err := p.ModifyI32(sizePos, int32(size-1)); err != nil {
+			return errNode(meta.ErrWrite, "", err)
 		}
 	}
 
